@@ -852,6 +852,30 @@ func c09Reentrant(c *C) {
 			return
 		}
 	}
+	// the same walk with every stateful tag wrapped around the recursive call: body-form ifchanged (names are distinct, so
+	// it always prints), ifchanged on a value, a filter tag, spaceless, with - each activation has its own
+	const walk2 = `{% macro w2(n) %}{% ifchanged %}[{{ n.Name }}{% ifchanged n.Name %}!{% endifchanged %}{% filter lower %}{% with q=n.Name %}{% for k in n.Kids %}{{ w2(k) }}{% ifchanged %}{{ k.Name }}{% endifchanged %}{% endfor %}{{ q }}{% endwith %}{% endfilter %}]{% endifchanged %}{% endmacro %}{{ w2(root) }}`
+	var ref2 func(n *C09Node) string
+	ref2 = func(n *C09Node) string {
+		s := "[" + n.Name + "!"
+		for _, k := range n.Kids {
+			s += ref2(k) + k.Name
+		}
+		return s + n.Name + "]"
+	}
+	tpl2, err2 := set.FromString(walk2)
+	if err2 != nil {
+		c.Fail("reference-mismatch", D{"source": q(walk2), "compile_err": err2.Error()})
+		return
+	}
+	for run := 0; run < 2; run++ {
+		out, xerr := tpl2.Execute(pongo2.Context{"root": root})
+		c.Eval(1)
+		if want2 := ref2(root); xerr != nil || out != want2 {
+			c.Fail("reference-mismatch", D{"source": q(walk2), "tree_nodes": cnt, "output": q(out), "expected": q(want2), "exec_err": errStr(xerr), "execution": run + 1, "why": "stateful tags (ifchanged in both forms, filter tag, with, for) re-entered through a recursive macro while an outer activation is still rendering its body"})
+			return
+		}
+	}
 	c.Cover("reentrant_loop")
 	if cnt > 2 {
 		c.Nontrivial(fmt.Sprintf("walk:%s", want))
@@ -1273,7 +1297,87 @@ func c09ManyIterations(c *C) {
 	c.Nontrivial(fmt.Sprintf("manyiter:%s:%d", b.name, n))
 }
 
+// c09UnsortedMap: a loop over a map WITHOUT `sorted` visits the entries in an order nobody promises - but it visits every
+// entry exactly once, with its own key and value, forloop counts 1..n in the order taken, and ifchanged on the loop
+// variables prints for every entry (keys are distinct; so are the values here). Judged up to the order of the entries.
+func c09UnsortedMap(c *C) {
+	r := c.R
+	n := 2 + r.Intn(5)
+	var data any
+	var wantPieces []string
+	switch r.Intn(4) {
+	case 0:
+		m := map[string]int{}
+		for i := 0; i < n; i++ {
+			m[fmt.Sprintf("k%d", i)] = 100 + i
+			wantPieces = append(wantPieces, fmt.Sprintf("<k%d>(%d)k%d=%d", i, 100+i, i, 100+i))
+		}
+		data = m
+	case 1:
+		m := map[int]string{}
+		for i := 0; i < n; i++ {
+			m[i*7] = fmt.Sprintf("v%d", i)
+			wantPieces = append(wantPieces, fmt.Sprintf("<%d>(v%d)%d=v%d", i*7, i, i*7, i))
+		}
+		data = m
+	case 2:
+		m := map[string]string{}
+		for i := 0; i < n; i++ {
+			m[fmt.Sprintf("é%d", i)] = fmt.Sprintf("日%d", i)
+			wantPieces = append(wantPieces, fmt.Sprintf("<é%d>(日%d)é%d=日%d", i, i, i, i))
+		}
+		data = m
+	default:
+		m := map[string]any{}
+		for i := 0; i < n; i++ {
+			m[fmt.Sprintf("a%d", i)] = i
+			wantPieces = append(wantPieces, fmt.Sprintf("<a%d>(%d)a%d=%d", i, i, i, i))
+		}
+		data = m
+	}
+	src := "{% for k, v in m %}{{ forloop.Counter }}/{{ forloop.Revcounter }}:{% ifchanged k %}<{{ k }}>{% endifchanged %}{% ifchanged v %}({{ v }}){% endifchanged %}{% ifchanged %}{{ k }}={{ v }}{% endifchanged %};{% endfor %}"
+	set, _ := newSet(emptySetFiles)
+	tpl, err := set.FromString(src)
+	if err != nil {
+		c.Fail("reference-mismatch", D{"source": src, "compile_err": err.Error()})
+		return
+	}
+	for run := 0; run < 2; run++ {
+		out, xerr := execSpread(tpl, pongo2.Context{"m": data}, uint64(c.Idx+run))
+		c.Eval(1)
+		d := D{"source": src, "map": fmt.Sprintf("%T %v", data, data), "output": q(out), "error": errStr(xerr), "expected_entries_in_any_order": wantPieces}
+		if xerr != nil {
+			c.Fail("reference-mismatch", d)
+			return
+		}
+		pieces := strings.Split(strings.TrimSuffix(out, ";"), ";")
+		var got []string
+		okCounters := len(pieces) == n
+		for i, p := range pieces {
+			pre := fmt.Sprintf("%d/%d:", i+1, n-i)
+			if !strings.HasPrefix(p, pre) {
+				okCounters = false
+			}
+			got = append(got, strings.TrimPrefix(p, pre))
+		}
+		sort.Strings(got)
+		want := append([]string(nil), wantPieces...)
+		sort.Strings(want)
+		if !okCounters || strings.Join(got, ";") != strings.Join(want, ";") {
+			d["why"] = "every entry once, with its own key and value; ifchanged on the loop variables prints for every entry; forloop counts in the order taken"
+			c.Fail("reference-mismatch", d)
+			return
+		}
+	}
+	c.Cover("unsorted_map_loop_up_to_order")
+	c.Nontrivial(fmt.Sprintf("unsortedmap:%d:%T", n, data))
+}
+
 func c09Run(c *C) {
+	if c.Idx%50 == 41 {
+		c09UnsortedMap(c)
+		return
+	}
 	if c.Idx%200 == 77 {
 		c09ManyIterations(c)
 		return
